@@ -47,10 +47,12 @@ pub fn identifiers(sigma: &[char], l: usize) -> Vec<String> {
     out
 }
 
-pub const DICTIONARY: [&str; 47] = [
+pub const DICTIONARY: [&str; 50] = [
     "HTTPServer", "HttpServer", "XMLHttpRequest", "Hello2You", "IPv6Addr", "A", "AB", "Ab", "ABc", "ABcD", "X__Y", "X_y", "Foo_Bar", "FOO_BAR", "FooBarBaz", "Sha256Hash",
     "Utf8To16", "V1", "V1a", "A1B2", "Red", "DarkBlack", "BrightWhite", "MyHTTPSConnection", "I", "IO", "IOError", "Os2Warp", "B2b", "Abc123Def", "ABC123def", "Élan", "ÑandÚ",
     "StraßeX", "Ünï", "TestMe_", "Test__Me", "T_", "Aa1_2b", "ZzTop", "NoOp", "PDFLoader2", "X86_64", "Armv7", "Café2", "Straße2You", "Ünï3x",
+    // scale: long identifiers (many words, acronym runs, digits)
+    "ThisIsAVeryLongVariantNameWithManyManyWordsInItForScaleAndThenSomeMoreWordsToBeSure", "HTTP2XMLToJSONConverterV10Beta3RCFinalFINAL2", "Aa0Bb1Cc2Dd3Ee4Ff5Gg6Hh7Ii8Jj9KkLlMmNnOoPpQqRrSsTtUuVvWwXxYyZz",
 ];
 
 pub fn programs(tier: Tier) -> ProgramSet {
